@@ -45,7 +45,9 @@ def setup_worker():
 def plan(tier):
     if tier == "quick":
         return [("base", {"lines": 0}, 12000, 250), ("lines", {"lines": 1}, 4000, 250), ("df", {"df": 1}, 1200, 100)]
-    return [("base", {"lines": 0}, 400000, 1000), ("lines", {"lines": 1}, 150000, 1000), ("df", {"df": 1}, 40000, 250)]
+    # thorough adds a 'deep' configuration beyond the bounds of the property text: up to 3 operations per client
+    return [("base", {"lines": 0}, 400000, 1000), ("lines", {"lines": 1}, 150000, 1000), ("df", {"df": 1}, 40000, 250),
+            ("deep", {"lines": 1, "deep": 1}, 100000, 500)]
 
 
 class _Time:
@@ -132,7 +134,7 @@ def scenario(ch, cfg):
     plans = []
     maxlen = max([len(v) for v in init.values() if v is not None] + [0])
     for c in range(nclients):
-        nops = 1 + ch.weighted([2, 1], "nops")
+        nops = 1 + (ch.weighted([2, 2, 1], "nops") if cfg.get("deep") else ch.weighted([2, 1], "nops"))
         ops = []
         for _ in range(nops):
             kind = ["get", "update", "unload"][ch.weighted([4, 4, 2], "opkind")]
